@@ -566,6 +566,27 @@ def mem_pair_corpus():
     return out
 
 
+def mapping_corpus():
+    """the shape of `mapping[key] = v` and `mapping[key]`: a word that comes from storage, memory or the environment is written to
+    memory, the written range is hashed, and the hash is the key of a storage access or the address of another memory access: memory
+    order and storage order interact (the back end schedules the two regions separately and merges them)"""
+    out = []
+    srcs = ["PUSH1 0x1 SLOAD", "PUSH1 0x80 MLOAD", "CALLER", "DUP1", "PUSH1 0x1 SLOAD PUSH1 0x2 SLOAD ADD"]
+    stores = ["PUSH1 0x0 MSTORE", "PUSH1 0x20 MSTORE", "PUSH1 0x1f MSTORE8"]
+    hashes = ["PUSH1 0x40 PUSH1 0x0 KECCAK256", "PUSH1 0x20 PUSH1 0x0 KECCAK256", "PUSH1 0x20 PUSH1 0x20 KECCAK256", "DUP2 PUSH1 0x0 KECCAK256"]
+    sinks = ["SSTORE", "SLOAD", "DUP1 SLOAD PUSH1 0x1 ADD SWAP1 SSTORE", "MLOAD", "SWAP1 POP", "PUSH1 0x1 SLOAD SWAP1 SSTORE", "DUP1 SLOAD SWAP1 PUSH1 0x60 MSTORE"]
+    for a in srcs:
+        for b in stores:
+            for h in hashes:
+                for z in sinks:
+                    out.append("%s %s %s %s" % (a, b, h, z))
+    # two mappings in a row (nested mapping): the second hash reads what the first one produced
+    for a in srcs[:3]:
+        out.append("%s PUSH1 0x0 MSTORE PUSH1 0x40 PUSH1 0x0 KECCAK256 PUSH1 0x20 MSTORE PUSH1 0x40 PUSH1 0x0 KECCAK256 SLOAD" % a)
+        out.append("%s PUSH1 0x0 MSTORE PUSH1 0x3 PUSH1 0x20 MSTORE PUSH1 0x40 PUSH1 0x0 KECCAK256 SSTORE" % a)
+    return out
+
+
 def access_pair_corpus():
     """a storage access and an account access on the same operand, in both orders, inside stack traffic that leaves the back end room to
     reorder them (the tool prices repeated accesses of one kind as warm; the two kinds keep separate books)"""
